@@ -22,3 +22,7 @@ pub uninterp spec fn fv(x: Fl) -> real;
 #[verifier::external_body] pub fn fl_mul(a: Fl, b: Fl) -> (r: Fl) ensures fv(r) == fv(a) * fv(b) { unimplemented!() }
 #[verifier::external_body] pub fn fl_div(a: Fl, b: Fl) -> (r: Fl) ensures fv(b) != 0real ==> fv(r) == fv(a) / fv(b) { unimplemented!() }
 #[verifier::external_body] pub fn fl_abs(a: Fl) -> (r: Fl) ensures fv(r) == (if fv(a) >= 0real { fv(a) } else { -fv(a) }) { unimplemented!() }
+// ---- S14: a float literal / module constant in an abstract-float context keeps its exact rational value
+#[verifier::external_body] pub fn fl_rat(neg: bool, n: u64, d: u64) -> (r: Fl) requires d > 0
+    ensures fv(r) == (if neg { -((n as int) as real) / ((d as int) as real) } else { ((n as int) as real) / ((d as int) as real) }) { unimplemented!() }
+#[verifier::external_body] pub fn fl_neg(a: Fl) -> (r: Fl) ensures fv(r) == -fv(a) { unimplemented!() }
